@@ -44,6 +44,11 @@ type Project struct {
 	Types []TypeSpec `json:"types,omitempty"`
 	Rules []RuleSpec `json:"rules,omitempty"`
 	Torn  string     `json:"torn,omitempty"` // how Text (or a type) was torn, for the evidence only
+	// ShareWith-1 is the index of an earlier object of the world whose type and rule
+	// *objects* this one registers too (same Types/Rules lists): the way an API
+	// project registers its one set of user-type objects with every schema in it.
+	// 0: own fresh objects. Not part of the input's identity (Hash).
+	ShareWith int `json:"share_with,omitempty"`
 }
 
 type TypeSpec struct {
@@ -64,15 +69,16 @@ type projectJ struct {
 	Types []TypeSpec `json:"types,omitempty"`
 	Rules []RuleSpec `json:"rules,omitempty"`
 	Torn  string     `json:"torn,omitempty"`
+	ShareWith int    `json:"share_with,omitempty"`
 }
 
 func (p Project) MarshalJSON() ([]byte, error) {
-	return json.Marshal(projectJ{p.Kind, p.Name, Txt(p.Text), p.Types, p.Rules, p.Torn})
+	return json.Marshal(projectJ{p.Kind, p.Name, Txt(p.Text), p.Types, p.Rules, p.Torn, p.ShareWith})
 }
 func (p *Project) UnmarshalJSON(b []byte) error {
 	var j projectJ
 	err := json.Unmarshal(b, &j)
-	*p = Project{j.Kind, j.Name, string(j.Text), j.Types, j.Rules, j.Torn}
+	*p = Project{j.Kind, j.Name, string(j.Text), j.Types, j.Rules, j.Torn, j.ShareWith}
 	return err
 }
 
